@@ -3,6 +3,8 @@ package main
 import (
 	"bytes"
 	"fmt"
+	"github.com/mmcloughlin/avo/pass"
+	"github.com/mmcloughlin/avo/printer"
 	"go/ast"
 	"go/parser"
 	"go/token"
@@ -395,6 +397,8 @@ type buildRec struct {
 
 func c06(c *Ctx) {
 	var history []buildRec
+	naliased := 0
+	defer refilledSliceCheck(c)
 	nreplayed := 0
 	o := c.Out
 	d := dumpForms(c.Repo)
@@ -503,6 +507,18 @@ func c06(c *Ctx) {
 					}
 				} else if m.IsValid() && len(ci.Params) == len(ops) && !strings.HasSuffix(ci.Params[0], "...") {
 					o.Plan.GoViolations = append(o.Plan.GoViolations, GoViolation{Key: "ctor:arity:" + name, Desc: "Context method " + name + " has a different number of parameters than the x86 constructor"})
+				}
+				// the built instruction holds the operands it was given, not the caller's slice: a generator that
+				// refills one argument slice for the next call must not change the instruction already built
+				if obs != nil && len(ops) > 0 && naliased < 5 {
+					before := instrSig(obs)
+					saved := ops[0]
+					ops[0] = operand.LabelRef("refilled")
+					if after := instrSig(obs); after != before {
+						naliased++
+						o.Plan.GoViolations = append(o.Plan.GoViolations, GoViolation{Key: "ctor:aliases-caller-slice", Desc: fmt.Sprintf("%s built from the argument slice %v changes to %s when the caller stores another operand into that slice afterwards", name, opsText(append([]operand.Op{saved}, ops[1:]...)), after), Replay: map[string]any{"ctor": name}})
+					}
+					ops[0] = saved
 				}
 				history = append(history, buildRec{name, opc, ci.Suffixes, ops, instrSig(obs)})
 				caseRows = append(caseRows, fmt.Sprintf("(%d, %s, %s, %s)", opc, cStrs(ci.Suffixes), cOperands(ops), cOptInstr(obs)))
@@ -747,4 +763,37 @@ func predicateMatrixFor(c *Ctx, d *formsDump, only map[string]bool, file string)
 	o.ExpectEmpty(file, "R_predicate_violation", "violation", "an operand-type predicate (operand.IsXXX via oprndtype.Match) accepts or rejects this operand contrary to the meaning of the type name (Model/Forms.v type_match): e.g. a float constant as imm32, CH as cl, a 32-bit base register as memory")
 	o.Plan.Stats["predicate_matrix"] = fmt.Sprintf("%d operands x %d types", len(univ), len(types))
 	return file
+}
+
+// refilledSliceCheck: the same through the public API and the whole pipeline: one argument slice refilled
+// between three calls of a variadic constructor; the printed function must show the three operand lists.
+func refilledSliceCheck(c *Ctx) {
+	o := c.Out
+	ctx := build.NewContext()
+	ctx.Function("f")
+	ctx.SignatureExpr("func()")
+	ops := []operand.Op{reg.X1, reg.X2, reg.X3}
+	for _, r := range []reg.Register{reg.X1, reg.X7, reg.X9} {
+		ops[0] = r
+		ctx.VPADDD(ops...)
+	}
+	ctx.RET()
+	idx := o.AddCase(Case{Key: "ctor:refilled-slice", Desc: "VPADDD(ops...) three times with ops[0] = X1, X7, X9 stored into one slice", Input: map[string]any{"ctor": "VPADDD", "first_operands": []string{"X1", "X7", "X9"}}, Nontrivial: true})
+	f, err := ctx.Result()
+	if err == nil {
+		err = pass.Compile.Execute(f)
+	}
+	var got []string
+	if err == nil {
+		out, _ := printer.NewGoAsm(printer.Config{Name: "avo", Pkg: "p"}).Print(f)
+		for _, ln := range strings.Split(string(out), "\n") {
+			if strings.HasPrefix(ln, "\tVPADDD") {
+				got = append(got, strings.Join(strings.Fields(ln), " "))
+			}
+		}
+	}
+	want := []string{"VPADDD X1, X2, X3", "VPADDD X7, X2, X3", "VPADDD X9, X2, X3"}
+	if err != nil || strings.Join(got, "; ") != strings.Join(want, "; ") {
+		o.Plan.GoViolations = append(o.Plan.GoViolations, GoViolation{Key: "ctor:aliases-caller-slice", Desc: fmt.Sprintf("case %d: three VPADDD calls given X1/X7/X9 through one refilled argument slice print as %q (error %v)", idx, got, err), Replay: map[string]any{"ctor": "VPADDD", "printed": got}})
+	}
 }
